@@ -18,7 +18,7 @@ var (
 	hashRed   = []string{"nil", "31", "32"}
 	sigRed    = []string{"nil", "31", "64"}
 	dataRed   = []string{"nil", "31", "32"}
-	addrFull  = []string{"empty", "valid", "garbage", "key31"}
+	addrFull  = []string{"empty", "valid", "garbage", "key31", "dec1", "dec4", "dec5", "key0", "key33"}
 	addrRed   = []string{"empty", "valid", "key31"}
 	presFull  = []string{"nil", "present"}
 	strFull   = []string{"empty", "normal"}
@@ -26,7 +26,7 @@ var (
 	timeFull  = []string{"0", "valid", "max"}
 	listFull  = []string{"nil", "[nil]", "[g]", "[g,nil]", "[n1,g]"}
 	listRed   = []string{"nil", "[nil]", "[g]"}
-	gaddrFull = []string{"empty", "valid", "garbage", "key31", "self"}
+	gaddrFull = []string{"empty", "valid", "garbage", "key31", "self", "dec1", "dec4", "dec5", "key0", "key33"}
 	gaddrRed  = []string{"valid", "key31", "self"}
 )
 
